@@ -63,6 +63,7 @@ func judge(r *run, res *simrt.Result) {
 	r.checkInnocent(m)
 	r.checkRetained(m)
 	r.checkReceiver(m)
+	r.checkSessions(m)
 	r.relabel()
 }
 
@@ -84,11 +85,17 @@ func (r *run) relabel() {
 	if to == "" {
 		return
 	}
+	tag := ""
+	if r.sc.Profile == "session" && r.m != nil && len(r.m.racedIDs()) > 0 {
+		// some identifier reconnected while its old connection was still being
+		// torn down: session state may be shared or deleted late (known defect)
+		tag = "/immediate-reconnect"
+	}
 	for i := range r.out.Violations {
 		v := &r.out.Violations[i]
 		for _, f := range from {
 			if v.Prop == f {
-				v.Sig = to + "/via-" + v.Sig
+				v.Sig = to + "/via-" + v.Sig + tag
 				v.Prop = to
 			}
 		}
@@ -338,7 +345,14 @@ func (r *run) checkRouting(m *Model) {
 		if len(byKey[k]) == 0 {
 			d := delivBy[k][0]
 			if d.Src >= srcWill && d.Src < srcInproc {
-				continue // wills: C09
+				cause := "?"
+				for _, c := range m.H.Conns {
+					if c.Idx == d.Seq {
+						cause = m.EndCause(c)
+					}
+				}
+				r.viol("C09", "will-only-on-abnormal-end", "C09/will-published-unexpectedly/"+cause, "%s received the will of connection %d (topic %q) although that connection ended by %s (or its will was replaced by a later CONNECT)", subscriberName(d.C, d.CB), d.Seq, d.Topic, cause)
+				continue
 			}
 			r.viol("C01", "unknown-message", "C01/unknown-message", "%s received a message (key %s, topic %q) that nobody published", subscriberName(d.C, d.CB), k, d.Topic)
 		}
@@ -374,8 +388,12 @@ func (r *run) checkRouting(m *Model) {
 		return a.cb < b.cb
 	})
 	for _, p := range m.Pubs {
-		if len(byKey[p.Key]) > 1 || p.Will {
+		if len(byKey[p.Key]) > 1 {
 			continue
+		}
+		prop := "C01"
+		if p.Will {
+			prop = "C09"
 		}
 		for _, sk := range subs {
 			var copies []*Delivery
@@ -412,10 +430,10 @@ func (r *run) checkRouting(m *Model) {
 			who := subscriberName(sk.c, sk.cb)
 			for _, d := range copies {
 				if d.Topic != p.Topic {
-					r.viol("C01", "topic-identical", "C01/wrong-topic", "%s received message %s on topic %q, it was published on %q", who, p.Key, d.Topic, p.Topic)
+					r.viol(prop, "topic-identical", prop+"/wrong-topic", "%s received message %s on topic %q, it was published on %q", who, p.Key, d.Topic, p.Topic)
 				}
 				if d.Stamp < p.Lo {
-					r.viol("C01", "causality", "C01/delivered-before-accept", "%s received message %s (stamp %d) before the broker could have accepted it (window starts %d)", who, p.Key, d.Stamp, p.Lo)
+					r.viol(prop, "causality", prop+"/delivered-before-accept", "%s received message %s (stamp %d) before the broker could have accepted it (window starts %d)", who, p.Key, d.Stamp, p.Lo)
 				}
 			}
 			if len(copies) > 0 && len(allowed) == 0 {
@@ -423,11 +441,11 @@ func (r *run) checkRouting(m *Model) {
 				if p.Never {
 					why = "the QoS 2 exchange was never released by a PUBREL"
 				}
-				r.viol("C01", "no-matching-subscription", "C01/delivered-without-subscription"+neverTag(p)+emptyLevelTag(p, grantsBy[sk]), "%s received message %s (topic %q, publish QoS %d) although %s; its subscriptions: %s", who, p.Key, p.Topic, p.QoS, why, fmtGrants(grantsBy[sk]))
+				r.viol(prop, "no-matching-subscription", prop+"/delivered-without-subscription"+neverTag(p)+emptyLevelTag(p, grantsBy[sk]), "%s received message %s (topic %q, publish QoS %d) although %s; its subscriptions: %s", who, p.Key, p.Topic, p.QoS, why, fmtGrants(grantsBy[sk]))
 				continue
 			}
 			if len(copies) > len(allowed) {
-				r.viol("C01", "at-most-once-per-subscription", "C01/too-many-copies"+emptyLevelTag(p, grantsBy[sk]), "%s received %d copies of message %s (topic %q) but holds at most %d matching subscription(s): %s", who, len(copies), p.Key, p.Topic, len(allowed), fmtGrants(grantsBy[sk]))
+				r.viol(prop, "at-most-once-per-subscription", prop+"/too-many-copies"+emptyLevelTag(p, grantsBy[sk]), "%s received %d copies of message %s (topic %q) but holds at most %d matching subscription(s): %s", who, len(copies), p.Key, p.Topic, len(allowed), fmtGrants(grantsBy[sk]))
 				continue
 			}
 			var qs []byte
@@ -444,7 +462,7 @@ func (r *run) checkRouting(m *Model) {
 				al = append(al, allowed[f])
 			}
 			if !assign(qs, al) {
-				r.viol("C01", "delivery-qos", "C01/wrong-qos"+emptyLevelTag(p, grantsBy[sk]), "%s received message %s (publish QoS %d) at QoS %v; matching subscriptions: %s", who, p.Key, p.QoS, qs, fmtGrants(grantsBy[sk]))
+				r.viol(prop, "delivery-qos", prop+"/wrong-qos"+emptyLevelTag(p, grantsBy[sk]), "%s received message %s (publish QoS %d) at QoS %v; matching subscriptions: %s", who, p.Key, p.QoS, qs, fmtGrants(grantsBy[sk]))
 			}
 			if certain && len(copies) == 0 {
 				// an in-process callback invoked with the retain flag inside a
@@ -458,7 +476,7 @@ func (r *run) checkRouting(m *Model) {
 				if ambiguous {
 					continue
 				}
-				r.viol("C01", "at-least-once", "C01/missing-delivery"+emptyTag(p)+emptyLevelTag(p, grantsBy[sk]), "%s holds a matching subscription for the whole time in which the broker accepted message %s (topic %q, QoS %d, %d bytes, window [%d,%d]) but never received it; subscriptions: %s", who, p.Key, p.Topic, p.QoS, len(p.Payload), p.Lo, p.Hi, fmtGrants(grantsBy[sk]))
+				r.viol(prop, "at-least-once", prop+"/missing-delivery"+willCause(m, p)+emptyTag(p)+emptyLevelTag(p, grantsBy[sk]), "%s holds a matching subscription for the whole time in which the broker accepted message %s (topic %q, QoS %d, %d bytes, window [%d,%d]) but never received it; subscriptions: %s", who, p.Key, p.Topic, p.QoS, len(p.Payload), p.Lo, p.Hi, fmtGrants(grantsBy[sk]))
 			}
 		}
 	}
@@ -510,6 +528,13 @@ func (m *Model) flushed(c *Conn, st int64) bool {
 		}
 	}
 	return false
+}
+
+func willCause(m *Model, p *Pub) string {
+	if !p.Will {
+		return ""
+	}
+	return "/" + m.EndCause(p.C)
 }
 
 func neverTag(p *Pub) string {
@@ -1046,4 +1071,75 @@ func fmtPubs(ps []*Pub) string {
 		parts = append(parts, fmt.Sprintf("{q%d window[%s,%s] certain=%v unreleased=%v dup-repeats=%d}", p.QoS, st(p.Lo), st(p.Hi), p.Certain, p.Never, p.Repeats))
 	}
 	return strings.Join(parts, " ")
+}
+
+// ---------------------------------------------------------------- C10 sessions
+
+// checkSessions compares the SessionPresent flag of every accepted CONNECT
+// with a model of the session store: state is kept only by the end of a
+// CleanSession=0 connection and erased by any CleanSession=1 connect.
+func (r *run) checkSessions(m *Model) {
+	h := m.H
+	conns := append([]*Conn{}, h.Conns...)
+	sort.SliceStable(conns, func(i, j int) bool { return conns[i].OpenStamp < conns[j].OpenStamp })
+	kept := map[string]bool{}
+	lastEnd := map[string]*Conn{}
+	raced := m.racedIDs()
+	for _, c := range conns {
+		if len(c.Up) == 0 || c.Up[0].P.Type != refmqtt.CONNECT || len(c.Down) == 0 || c.Down[0].P.Type != refmqtt.CONNACK {
+			continue
+		}
+		cp, ack := c.Up[0].P, c.Down[0].P
+		if ack.Code != 0 || cp.ClientID == "" {
+			continue
+		}
+		want := !cp.CleanSession && kept[cp.ClientID]
+		if ack.SessionPresent != want {
+			prev := "no earlier connection"
+			racing := ""
+			if p := lastEnd[cp.ClientID]; p != nil {
+				prev = fmt.Sprintf("previous connection %d had CleanSession=%v and was ended by %s at stamp %d", p.Idx, p.Up[0].P.CleanSession, m.EndCause(p), p.EndStamp)
+			}
+			if raced[cp.ClientID] {
+				racing = "/immediate-reconnect"
+			}
+			r.viol("C10", "session-present", fmt.Sprintf("C10/session-present/clean%v-want%v-got%v%s", cp.CleanSession, want, ack.SessionPresent, racing), "connection %d: CONNECT(id %q, CleanSession=%v) at stamp %d was answered with SessionPresent=%v, expected %v; %s", c.Idx, cp.ClientID, cp.CleanSession, c.Up[0].First, ack.SessionPresent, want, prev)
+		}
+		kept[cp.ClientID] = !cp.CleanSession
+		lastEnd[cp.ClientID] = c
+	}
+}
+
+// racedIDs returns the client identifiers that at some point reconnected
+// while the broker could still be tearing their previous connection down (no
+// quiescence point between the end of one connection and the CONNECT of the
+// next).
+func (m *Model) racedIDs() map[string]bool {
+	out := map[string]bool{}
+	conns := append([]*Conn{}, m.H.Conns...)
+	sort.SliceStable(conns, func(i, j int) bool { return conns[i].OpenStamp < conns[j].OpenStamp })
+	last := map[string]*Conn{}
+	for _, c := range conns {
+		if len(c.Up) == 0 || c.Up[0].P.Type != refmqtt.CONNECT {
+			continue
+		}
+		id := c.Up[0].P.ClientID
+		if p := last[id]; p != nil {
+			end := p.EndStamp
+			if !p.ClientEnded {
+				end = p.DeadStamp
+			}
+			quiet := false
+			for _, q := range m.H.AllQ {
+				if q > end && q < c.Up[0].First {
+					quiet = true
+				}
+			}
+			if !quiet {
+				out[id] = true
+			}
+		}
+		last[id] = c
+	}
+	return out
 }
